@@ -120,12 +120,27 @@ def check_build(ck, ctx, b, tier):
         for ub in c2.unsafe_blocks:
             hir.setdefault((cname, ub['owner']), 0)
             hir[(cname, ub['owner'])] += 1
+    def strip_generics(name):
+        # remove every `::<...>` argument list (nested brackets; the `>` of `->` inside a fn type is not a bracket)
+        out, i, n_ = [], 0, len(name)
+        while i < n_:
+            if name.startswith('::<', i):
+                depth, j = 1, i + 3
+                while j < n_ and depth:
+                    if name.startswith('->', j): j += 2; continue
+                    if name[j] == '<': depth += 1
+                    elif name[j] == '>': depth -= 1
+                    j += 1
+                i = j
+            else:
+                out.append(name[i]); i += 1
+        return ''.join(out)
     met_fns = set()
     for fn in sites_seen:
-        met_fns.add(re.sub(r'::<[^>]*>', '', fn))
+        met_fns.add(strip_generics(fn))
     missing = []
     for (cname, owner), n in hir.items():
-        o = re.sub(r'::<[^>]*>', '', owner)
+        o = strip_generics(owner)
         o2 = o.split('::', 1)[1] if cname == 'yuvxyb_math' and o.startswith('yuvxyb_math::') else o
         if not any(m.endswith(o) or m.endswith(o2) or o.endswith(m) for m in met_fns):
             missing.append(owner)
